@@ -514,7 +514,9 @@ package otp
 //@   loop 1 invariant qval(query, "secret") == param.Secret && qval(query, "issuer") == param.Issuer &&
 //@ |   qval(query, "algorithm") == algname(param.Algorithm) && qval(query, "digits") == dec(param.Digits == 0 ? 6 : param.Digits)
 //@   loop 1 invariant forall k: seq :: rangeseen(k) ==> qval(query, k) == qval(extraParams, k)
+//@   loop 1 invariant forall k: seq :: k != "secret" && k != "issuer" && k != "algorithm" && k != "digits" && !rangeseen(k) ==> qval(query, k) == ""
 //@   ensures[extra] err == nil ==> forall k: seq :: qhas(extraParams, k) ==> qget(r.RawQuery, k) == qval(extraParams, k)
+//@   ensures[only] err == nil ==> forall k: seq :: k != "secret" && k != "issuer" && k != "algorithm" && k != "digits" && !qhas(extraParams, k) ==> qget(r.RawQuery, k) == ""
 //@   ensures[iff] err == nil <==> urlok(param)
 //@   ensures[verdict] (err == nil && r != nil) || (err != nil && r == nil)
 //@   ensures[fields] err == nil ==> urlfields(r, kind, param)
@@ -527,12 +529,28 @@ package otp
 //@   ensures[iff] err == nil <==> urlok(param)
 //@   ensures[fields] err == nil ==> urlfields(r, "hotp", param)
 //@   ensures[counter] err == nil ==> qget(r.RawQuery, "counter") == "0"
+//@   ensures[noperiod] err == nil ==> qget(r.RawQuery, "period") == ""
 //@ func otp.GenerateTOTPURL(param) (r, err)
 //@   ensures[plain] err == nil ==> urlplain(r)
 //@   ensures[verdict] (err == nil && r != nil) || (err != nil && r == nil)
 //@   ensures[iff] err == nil <==> urlok(param)
 //@   ensures[fields] err == nil ==> urlfields(r, "totp", param)
 //@   ensures[period] err == nil ==> qget(r.RawQuery, "period") == dec(param.Period == 0 ? 30 : param.Period)
+
+// C16 as one statement: parsing the textual form of a generated URL returns its input (ghost clients in verif_clients.go).
+// Issuer without a colon (nparts(issuer, ":") == 1), a supported hash; code length 0 means 6, period 0 means 30.
+// (a period of 2^63 or more is written but not read back: strconv.Atoi rejects it; the property's periods end at 2^31)
+//@ macro rtin(p) = urlok(p) && nparts(p.Issuer, ":") == 1 && p.Algorithm <= 2 && p.Period < 9223372036854775808
+//@ macro rtsame(q, p) = q.Issuer == p.Issuer && q.AccountName == p.AccountName && q.Secret == p.Secret &&
+//@ |   q.Digits == (p.Digits == 0 ? 6 : p.Digits) && q.Algorithm == p.Algorithm
+//@ func otp.verifRoundTripTOTP(p) (q, err)
+//@   assert u2 1 : u2 != nil ==> urllabel(u2) == cat(p.Issuer, ":", p.AccountName)
+//@   ensures[roundtrip] rtin(p) ==> err == nil && q != nil && rtsame(q, p) && q.Period == (p.Period == 0 ? 30 : p.Period)
+//@   ensures[reject] !urlok(p) ==> err != nil && q == nil
+//@ func otp.verifRoundTripHOTP(p) (q, err)
+//@   assert u2 1 : u2 != nil ==> urllabel(u2) == cat(p.Issuer, ":", p.AccountName)
+//@   ensures[roundtrip] rtin(p) ==> err == nil && q != nil && rtsame(q, p)
+//@   ensures[reject] !urlok(p) ==> err != nil && q == nil
 
 // documented panic on an unknown or invalid suite string (excluded from C10); on return the registered configuration
 //@ func otp.MustRawSuite(raw) (r)
